@@ -1,5 +1,204 @@
-"""Compiler-level half of C15 (filled in once il2c exists)."""
+"""Compiler-level half of C15: every distinct reachable case-tree state replayed as a C switch whose labels
+appear in the state's insertion order, for several key maps and controlling types, executed through
+il2c and compared with gcc and clang on the same source; statement-level templates; duplicate rejection."""
+import os
+import shutil
+import subprocess
+
+from .. import fs, ilexec
+
+# rank -> key, increasing in the unsigned 64-bit order of the sign-extended constant (the order tree.c uses)
+MAPS = [
+    ('int', 'int', ['0', '1', '5', '2147483647', '(-2147483647-1)', '-1', '-77', '100']),
+    ('unsigned', 'unsigned', ['0u', '1u', '2147483647u', '2147483648u', '4294967294u', '4294967295u', '7u', '9u']),
+    ('long', 'long', ['0L', '5L', '2147483647L', '2147483648L', '(-9223372036854775807L-1)', '-1L', '-2147483649L', '4294967296L']),
+    ('ulong', 'unsigned long', ['0UL', '1UL', '4294967295UL', '4294967296UL', '9223372036854775808UL', '18446744073709551615UL', '9223372036854775807UL', '3UL']),
+    ('schar', 'signed char', ['0', '1', '5', '127', '-128', '-1', '64', '-64']),
+    ('short', 'short', ['0', '1', '5', '32767', '-32768', '-1', '256', '-256']),
+    ('uchar', 'unsigned char', ['0', '1', '127', '128', '254', '255', '7', '200']),
+]
+PROBES = {
+    'int': ['0', '1', '2', '4', '5', '6', '2147483646', '2147483647', '(-2147483647-1)', '-2147483647', '-2', '-1', '-77', '-76', '-78', '100', '99', '101'],
+    'unsigned': ['0u', '1u', '2u', '2147483646u', '2147483647u', '2147483648u', '2147483649u', '4294967293u', '4294967294u', '4294967295u', '6u', '7u', '8u', '9u', '10u'],
+    'long': ['0L', '1L', '4L', '5L', '6L', '2147483646L', '2147483647L', '2147483648L', '2147483649L', '(-9223372036854775807L-1)', '-9223372036854775807L',
+             '-2L', '-1L', '-2147483649L', '-2147483648L', '-2147483650L', '4294967296L', '4294967295L', '4294967297L', '9223372036854775807L'],
+    'unsigned long': ['0UL', '1UL', '2UL', '4294967294UL', '4294967295UL', '4294967296UL', '4294967297UL', '9223372036854775807UL', '9223372036854775808UL',
+                      '9223372036854775809UL', '18446744073709551614UL', '18446744073709551615UL', '3UL', '4UL'],
+    'signed char': ['0', '1', '2', '4', '5', '6', '126', '127', '-128', '-127', '-2', '-1', '63', '64', '65', '-63', '-64', '-65'],
+    'short': ['0', '1', '2', '4', '5', '6', '32766', '32767', '-32768', '-32767', '-2', '-1', '255', '256', '257', '-255', '-256', '-257'],
+    'unsigned char': ['0', '1', '2', '126', '127', '128', '129', '253', '254', '255', '6', '7', '8', '199', '200', '201'],
+}
+
+
+def gen_unit(states, mapping, unit_id):
+    """One C program: a switch function per (state, variant) and a main walking the probe table."""
+    tag, ctype, keys = mapping
+    fns = []
+    src = ['int printf(const char *, ...);\n']
+    for si, hist in enumerate(states):
+        labels = [keys[r] for r in hist]
+        n = len(labels)
+        # variant a: return per case, default last
+        body = ''.join(' case %s: return %d;' % (l, i + 1) for i, l in enumerate(labels))
+        src.append('static int a%d(%s v) { switch (v) {%s default: return 99; } }\n' % (si, ctype, body))
+        # variant b: no default, break
+        body = ''.join(' case %s: r = %d; break;' % (l, i + 1) for i, l in enumerate(labels))
+        src.append('static int b%d(%s v) { int r = 0; switch (v) {%s } return r; }\n' % (si, ctype, body))
+        # variant c: fall through, default in the middle
+        parts = [' case %s: r = r * 7 + %d;' % (l, i + 1) for i, l in enumerate(labels)]
+        parts.insert(n // 2, ' default: r = r * 7 + 50;')
+        src.append('static int c%d(%s v) { int r = 1; switch (v) {%s } return r; }\n' % (si, ctype, ''.join(parts)))
+        fns += ['a%d' % si, 'b%d' % si, 'c%d' % si]
+    probes = PROBES[ctype]
+    src.append('static %s probes[] = { %s };\n' % (ctype, ', '.join(probes)))
+    src.append('static int (*fns[])(%s) = { %s };\n' % (ctype, ', '.join(fns)))
+    src.append('int main(void) { unsigned long h = 0; for (int f = 0; f < %d; ++f) { for (int p = 0; p < %d; ++p) { int r = fns[f](probes[p]); '
+               'printf("%%d ", r); } printf("\\n"); } return 0; }\n' % (len(fns), len(probes)))
+    return ''.join(src), len(fns), len(probes)
+
+
+TEMPLATES = r'''
+int printf(const char *, ...);
+static int loopsw(int n) { int r = 0; for (int i = 0; i < n; ++i) { switch (i & 3) { case 0: continue; case 1: r += 1; break; case 2: r += 10; default: r += 100; } r += 1000; } return r; }
+static int nested(int a, int b) { int r = 0; switch (a) { case 1: switch (b) { case 1: r = 11; break; case 2: r = 12; break; default: r = 19; } r += 100; break; case 2: r = 2; break; default: r = 9; } return r; }
+static int duff(int n) { int r = 0, i = (n + 3) / 4; if (n <= 0) return 0; switch (n % 4) { case 0: do { r += 1; case 3: r += 1; case 2: r += 1; case 1: r += 1; } while (--i > 0); } return r; }
+static int nocase(int v) { switch (v) { } return 7; }
+static int onlydef(int v) { switch (v) { default: return 5; } return 6; }
+static int blocklabel(int v) { int r = 0; switch (v) { { case 3: r = 3; break; } { int q = 4; case 4: r = 40; break; } default: r = 9; } return r; }
+static int charctl(char c) { switch (c) { case 0: return 1; case 256 + 1: return 2; case 1: return 3; } return 0; }
+static int folded(int v) { enum { K = 5 }; switch (v) { case 1 + 1: return 2; case K * 2: return 10; case sizeof(int): return 4; case (char)300: return 44; } return 0; }
+static int longctl(long long v) { switch (v) { case 4294967296LL: return 1; case 0: return 2; case -4294967296LL: return 3; case 1LL << 62: return 4; } return 0; }
+static int u8ctl(unsigned long v) { switch (v) { case 0xffffffffffffffffUL: return 1; case 0x8000000000000000UL: return 2; case 0x7fffffffffffffffUL: return 3; case 0: return 4; } return 0; }
+static int bf(int x) { struct { int b : 3; unsigned u : 2; } s; s.b = x; s.u = x; int r = 0; switch (s.b) { case -4: r = 1; break; case -1: r = 2; break; case 3: r = 3; break; case 0: r = 4; break; } switch (s.u) { case 3: r += 10; break; case 0: r += 20; break; } return r; }
+int main(void) {
+	for (int i = -1; i < 9; ++i) printf("%d %d %d %d %d %d ", loopsw(i), duff(i), nocase(i), onlydef(i), blocklabel(i), folded(i));
+	for (int a = 0; a < 4; ++a) for (int b = 0; b < 4; ++b) printf("%d ", nested(a, b));
+	for (int c = -2; c < 3; ++c) printf("%d ", charctl((char)c));
+	printf("%d %d %d %d %d ", folded(10), folded(4), folded(44), folded(300), folded(5));
+	printf("%d %d %d %d %d %d ", longctl(4294967296LL), longctl(0), longctl(-4294967296LL), longctl(1LL << 62), longctl(1), longctl(-1));
+	printf("%d %d %d %d %d ", u8ctl(-1UL), u8ctl(1UL << 63), u8ctl((1UL << 63) - 1), u8ctl(0), u8ctl(5));
+	for (int x = -5; x < 6; ++x) printf("%d ", bf(x));
+	printf("\n");
+	return 0;
+}
+'''
+
+REJECTS = [
+    ('dup-case', 'int f(int v) { switch (v) { case 1: return 1; case 1: return 2; } return 0; }'),
+    ('dup-case-folded', 'int f(int v) { switch (v) { case 1: return 1; case 3 - 2: return 2; } return 0; }'),
+    ('dup-case-after-promotion-conversion', 'int f(int v) { switch (v) { case 4294967297: return 1; case 1: return 2; } return 0; }'),
+    ('dup-default', 'int f(int v) { switch (v) { default: return 1; default: return 2; } return 0; }'),
+    ('case-outside-switch', 'int f(int v) { case 1: return 1; }'),
+    ('default-outside-switch', 'int f(int v) { default: return 1; }'),
+    ('dup-case-nested-same-switch', 'int f(int v) { switch (v) { case 2: { case 2: return 1; } } return 0; }'),
+]
+ACCEPTS = [
+    ('same-constant-in-nested-switch', 'int f(int v) { switch (v) { case 2: switch (v) { case 2: return 1; } } return 0; }'),
+    ('distinct-after-promotion', 'int f(char c) { switch (c) { case 0: return 1; case 256: return 2; } return 0; }'),
+]
+
+
+def _job(a):
+    kind, name, src = a
+    d = ilexec.workdir('c15.')
+    try:
+        try:
+            got = ilexec.exec_program(src, d, name)
+        except ilexec.CompileError as e:
+            return (kind, name, src, ('cproc-rejects', e.status, e.err[:300]), None, None)
+        ref1 = ilexec.exec_reference(src, d, name, 'gcc')
+        ref2 = ilexec.exec_reference(src, d, name, 'clang')
+        return (kind, name, src, got[:2], ref1[:2], ref2[:2])
+    finally:
+        shutil.rmtree(d, ignore_errors=True)
 
 
 def run(chk, treemc_exe):
-    return {'status': 'not built yet'}
+    n = 6 if chk.quick else 7
+    out = subprocess.run([treemc_exe, 'bfs', str(n), '0', 'dump'], stdout=subprocess.PIPE, timeout=600).stdout.decode()
+    states = [tuple(int(x) for x in ln[2:].split(',')) for ln in out.splitlines() if ln.startswith('S ') and len(ln) > 2]
+    jobs = []
+    per = 60
+    nfun = 0
+    for mp in MAPS:
+        for i in range(0, len(states), per):
+            src, nf, npb = gen_unit(states[i:i + per], mp, i)
+            nfun += nf
+            jobs.append(('states', '%s_%d' % (mp[0], i), src))
+    jobs.append(('templates', 'templates', TEMPLATES))
+    if not chk.quick:
+        for nk, order in ((100, 'asc'), (100, 'desc'), (1000, 'organ'), (1000, 'stride7'), (5000, 'bitrev')):
+            jobs.append(('large', 'large_%d_%s' % (nk, order), gen_large(nk, order)))
+    executed = evals = 0
+    outs = set()
+    for kind, name, src, got, r1, r2 in fs.pimap(_job, jobs):
+        executed += 1
+        if r1 != r2 or r1 is None or r1[0] != 0:
+            chk.notes.append('ambiguous switch unit %s: gcc %r clang %r' % (name, r1 and r1[0], r2 and r2[0]))
+            continue
+        evals += len(r1[1].split())
+        outs.add(r1[1])
+        if got != r1:
+            fam = 'switch/%s/%s' % (kind, name.split('_')[0] if kind == 'states' else name)
+            detail = first_diff(got, r1)
+            chk.violation(fam, 'switch program %s: cproc+il2c gives %s, gcc and clang give %s' % (name, detail[0], detail[1]),
+                          files={'input.c': src.encode()}, cmd='$CPROC_QBE input.c | head -5; echo "(execute through il2c: see why.txt)"', detail=detail)
+    # duplicate labels must be rejected, distinct ones accepted
+    srv = fs.server('fs')
+    nrej = 0
+    for name, src in REJECTS:
+        r = srv.compile(src + '\n')
+        nrej += 1
+        if r.status != 1:
+            chk.violation('switch/accepts-invalid/' + name, '%s: status %d (expected a diagnostic)' % (src, r.status), files={'input.c': src.encode()}, cmd='$CPROC_QBE input.c')
+    for name, src in ACCEPTS:
+        r = srv.compile(src + '\n')
+        nrej += 1
+        if r.status != 0:
+            chk.violation('switch/rejects-valid/' + name, '%s: status %d: %s' % (src, r.status, r.err[:200]), files={'input.c': src.encode()}, cmd='$CPROC_QBE input.c')
+    return {'distinct_tree_states_replayed': len(states), 'key_maps': [m[0] for m in MAPS], 'functions_executed': nfun, 'units': executed,
+            'probe_evaluations': evals, 'distinct_outputs': len(outs), 'accept_reject_cases': nrej,
+            'samples': [{'state_history_ranks': list(states[len(states) // 2]), 'unit_excerpt': gen_unit(states[len(states) // 2:len(states) // 2 + 1], MAPS[0], 0)[0][:600]}]}
+
+
+def first_diff(got, ref):
+    if got[0] != ref[0] or not isinstance(got[1], bytes):
+        return (repr(got)[:200], repr(ref)[:200])
+    g, r = got[1].split(b'\n'), ref[1].split(b'\n')
+    for i, (a, b) in enumerate(zip(g, r)):
+        if a != b:
+            return ('line %d: %s' % (i, a.decode()[:160]), 'line %d: %s' % (i, b.decode()[:160]))
+    return ('%d lines' % len(g), '%d lines' % len(r))
+
+
+def gen_large(n, order):
+    if order == 'asc':
+        idx = list(range(n))
+    elif order == 'desc':
+        idx = list(range(n - 1, -1, -1))
+    elif order == 'organ':
+        idx = [i // 2 if i % 2 == 0 else n - 1 - i // 2 for i in range(n)]
+    elif order == 'stride7':
+        m = n + 1
+        while m % 7 == 0:
+            m += 1
+        idx = [(i * 7) % n for i in range(n)] if n % 7 else list(range(n))
+        idx = list(dict.fromkeys(idx)) + [i for i in range(n) if i not in set(idx)]
+    else:
+        bits = max(1, (n - 1).bit_length())
+        idx = [int(format(i, '0%db' % bits)[::-1], 2) for i in range(1 << bits)]
+        idx = [i for i in idx if i < n]
+    keys = [(i * 2654435761) % (1 << 40) - (1 << 39) for i in range(n)]
+    keys = sorted(set(keys))[:n]
+    labels = [keys[i % len(keys)] for i in idx]
+    seen, uniq = set(), []
+    for k in labels:
+        if k not in seen:
+            seen.add(k)
+            uniq.append(k)
+    body = ''.join(' case %dL: return %d;' % (k, i % 1000 + 1) for i, k in enumerate(uniq))
+    src = 'int printf(const char *, ...);\nstatic int f(long v) { switch (v) {%s default: return 0; } }\n' % body
+    src += 'static long keys[] = { %s };\n' % ', '.join('%dL' % k for k in uniq)
+    src += ('int main(void) { unsigned long h = 0; for (int i = 0; i < %d; ++i) { for (int d = -1; d <= 1; ++d) h = h * 31 + f(keys[i] + d); } '
+            'h = h * 31 + f(0) + f(-9223372036854775807L-1) + f(9223372036854775807L); printf("%%lu\\n", h); return 0; }\n' % len(uniq))
+    return src
